@@ -95,24 +95,84 @@ type Spec struct {
 // DEKInfo describes a data-key template of the KMS envelope AEAD.
 type DEKInfo struct {
 	Scheme string
-	KeyLen int
-	Tag    byte // proto tag of the key_value field in the serialised DEK
+	KeyLen int  // key bytes newDEK draws
+	Tag    byte // single-field key protos: proto tag of the key_value field in the serialised DEK
 	Tmpl   func() *tinkpb.KeyTemplate
+	// AES-CTR-HMAC data keys (name etm:<iv>.<tag>.<hash>.<aes key len>.<hmac key len>): key = AES key || HMAC key
+	IVSize, TagSize, AESLen int
+	Hash                    string
 }
 
 var DEKs = map[string]DEKInfo{
-	"gcm16":   {"gcm", 16, 0x1a, aead.AES128GCMKeyTemplate},
-	"gcm32":   {"gcm", 32, 0x1a, aead.AES256GCMKeyTemplate},
-	"chacha":  {"chacha", 32, 0x12, aead.ChaCha20Poly1305KeyTemplate},
-	"xchacha": {"xchacha", 32, 0x1a, aead.XChaCha20Poly1305KeyTemplate},
-	"siv16":   {"siv", 16, 0x1a, aead.AES128GCMSIVKeyTemplate},
-	"siv32":   {"siv", 32, 0x1a, aead.AES256GCMSIVKeyTemplate},
+	"gcm16":   {Scheme: "gcm", KeyLen: 16, Tag: 0x1a, Tmpl: aead.AES128GCMKeyTemplate},
+	"gcm32":   {Scheme: "gcm", KeyLen: 32, Tag: 0x1a, Tmpl: aead.AES256GCMKeyTemplate},
+	"chacha":  {Scheme: "chacha", KeyLen: 32, Tag: 0x12, Tmpl: aead.ChaCha20Poly1305KeyTemplate},
+	"xchacha": {Scheme: "xchacha", KeyLen: 32, Tag: 0x1a, Tmpl: aead.XChaCha20Poly1305KeyTemplate},
+	"siv16":   {Scheme: "siv", KeyLen: 16, Tag: 0x1a, Tmpl: aead.AES128GCMSIVKeyTemplate},
+	"siv32":   {Scheme: "siv", KeyLen: 32, Tag: 0x1a, Tmpl: aead.AES256GCMSIVKeyTemplate},
 }
-var DEKNames = []string{"gcm16", "gcm32", "chacha", "xchacha", "siv16", "siv32"}
+
+// The AES-CTR-HMAC data keys: the smallest legal IV and tag (data-key ciphertexts of 22 + |p| bytes, the
+// shortest any supported data key produces), the two library templates, and an odd combination.
+var DEKNames = []string{"gcm16", "gcm32", "chacha", "xchacha", "siv16", "siv32",
+	"etm:12.10.sha256.16.16", "etm:16.16.sha256.16.32", "etm:16.32.sha256.32.32", "etm:13.11.sha1.32.20", "etm:12.12.sha512.16.64"}
+
+// DEKOf resolves a data-key template name.
+func DEKOf(name string) (DEKInfo, bool) {
+	if d, ok := DEKs[name]; ok {
+		return d, true
+	}
+	if !strings.HasPrefix(name, "etm:") {
+		return DEKInfo{}, false
+	}
+	p := strings.Split(name[4:], ".")
+	if len(p) != 5 {
+		return DEKInfo{}, false
+	}
+	iv, e1 := strconv.Atoi(p[0])
+	tg, e2 := strconv.Atoi(p[1])
+	al, e3 := strconv.Atoi(p[3])
+	hl, e4 := strconv.Atoi(p[4])
+	if e1 != nil || e2 != nil || e3 != nil || e4 != nil || hashByName(p[2]) == nil || hl > 100 {
+		return DEKInfo{}, false
+	}
+	d := DEKInfo{Scheme: "etm", KeyLen: al + hl, IVSize: iv, TagSize: tg, AESLen: al, Hash: p[2]}
+	d.Tmpl = func() *tinkpb.KeyTemplate {
+		f := &etmpb.AesCtrHmacAeadKeyFormat{
+			AesCtrKeyFormat: &ctrpb.AesCtrKeyFormat{Params: &ctrpb.AesCtrParams{IvSize: uint32(iv)}, KeySize: uint32(al)},
+			HmacKeyFormat:   &hmacpb.HmacKeyFormat{Params: &hmacpb.HmacParams{Hash: protoHash(p[2]), TagSize: uint32(tg)}, KeySize: uint32(hl)},
+		}
+		v, err := proto.MarshalOptions{Deterministic: true}.Marshal(f)
+		if err != nil {
+			panic(err)
+		}
+		return &tinkpb.KeyTemplate{TypeUrl: "type.googleapis.com/google.crypto.tink.AesCtrHmacAeadKey", Value: v, OutputPrefixType: tinkpb.OutputPrefixType_TINK}
+	}
+	return d, true
+}
+
+// Ser is the serialised data key newDEK returns for the key bytes dk, written out by hand (every length
+// fits one byte): the single-field protos tag len key; AesCtrHmacAeadKey = 12 L1 (12 02 08 iv  1a la aes)
+// 1a L2 (12 04 08 hash 10 tag  1a lh hmac), zero-valued versions omitted.
+func (d DEKInfo) Ser(dk []byte) []byte {
+	if d.Scheme != "etm" {
+		return append([]byte{d.Tag, byte(d.KeyLen)}, dk...)
+	}
+	ak, hk := dk[:d.AESLen], dk[d.AESLen:]
+	ctr := append([]byte{0x12, 2, 0x08, byte(d.IVSize), 0x1a, byte(len(ak))}, ak...)
+	hm := append([]byte{0x12, 4, 0x08, byte(protoHash(d.Hash)), 0x10, byte(d.TagSize), 0x1a, byte(len(hk))}, hk...)
+	out := append([]byte{0x12, byte(len(ctr))}, ctr...)
+	return append(append(out, 0x1a, byte(len(hm))), hm...)
+}
 
 // DEKSpec is the (RAW) key description of a data key with the given key bytes.
 func (s *Spec) DEKSpec(key []byte) *Spec {
-	return &Spec{Scheme: DEKs[s.DEK].Scheme, Route: "H", Variant: "R", Params: "-", Key: key}
+	d, _ := DEKOf(s.DEK)
+	if d.Scheme == "etm" {
+		return &Spec{Scheme: "etm", Route: "H", Variant: "R", Key: key, IVSize: d.IVSize, TagSize: d.TagSize, AESLen: d.AESLen, Hash: d.Hash,
+			Params: fmt.Sprintf("%d.%d.%s.%d", d.IVSize, d.TagSize, d.Hash, d.AESLen)}
+	}
+	return &Spec{Scheme: d.Scheme, Route: "H", Variant: "R", Params: "-", Key: key}
 }
 
 func ParseSpec(f []string) (*Spec, error) {
@@ -172,7 +232,7 @@ func ParseSpec(f []string) (*Spec, error) {
 		if len(p) != 4 {
 			return nil, fmt.Errorf("env params")
 		}
-		if _, ok := DEKs[p[0]]; !ok {
+		if _, ok := DEKOf(p[0]); !ok {
 			return nil, fmt.Errorf("dek")
 		}
 		s.DEK = p[0]
@@ -229,7 +289,7 @@ func (s *Spec) IVLen() int {
 	case "pad":
 		return s.Inner.IVLen()
 	case "env":
-		d := DEKs[s.DEK]
+		d, _ := DEKOf(s.DEK)
 		return d.KeyLen + s.KEK.IVLen() + s.DEKSpec(nil).IVLen()
 	}
 	return 0
@@ -323,7 +383,7 @@ func (s *Spec) KeyData() (*tinkpb.KeyData, error) {
 		// wrapped by aead_factory's fullAEADPrimitiveAdapter); the key-encryption AEAD is served by the
 		// harness KMS client below, the URI carries its key description
 		url, m = "type.googleapis.com/google.crypto.tink.KmsEnvelopeAeadKey", &kmsepb.KmsEnvelopeAeadKey{
-			Params: &kmsepb.KmsEnvelopeAeadKeyFormat{KekUri: kmsURIPrefix + hx.H([]byte(s.KEK.String())), DekTemplate: DEKs[s.DEK].Tmpl()}}
+			Params: &kmsepb.KmsEnvelopeAeadKeyFormat{KekUri: kmsURIPrefix + hx.H([]byte(s.KEK.String())), DekTemplate: dekTmpl(s.DEK)}}
 		v, err := proto.Marshal(m)
 		if err != nil {
 			return nil, err
@@ -444,7 +504,7 @@ func (s *Spec) Build() (tink.AEAD, error) {
 		if err != nil {
 			return nil, err
 		}
-		return aead.NewKMSEnvelopeAEAD2(DEKs[s.DEK].Tmpl(), kek), nil
+		return aead.NewKMSEnvelopeAEAD2(dekTmpl(s.DEK), kek), nil
 	}
 	if s.Scheme == "ks" {
 		var keys []*tinkpb.Keyset_Key
@@ -586,7 +646,15 @@ func (s *Spec) CtLen(n int) int {
 
 // PadKEK wraps the key-encryption spec k of an envelope over the data-key template dek so that
 // the encrypted DEK has exactly n bytes; PadMin is the least n that fits.
-func PadMin(k *Spec, dek string) int { return 2 + k.CtLen(2+DEKs[dek].KeyLen) }
+func PadMin(k *Spec, dek string) int {
+	d, _ := DEKOf(dek)
+	return 2 + k.CtLen(len(d.Ser(make([]byte, d.KeyLen))))
+}
+
+func dekTmpl(name string) *tinkpb.KeyTemplate {
+	d, _ := DEKOf(name)
+	return d.Tmpl()
+}
 
 func PadEnv(k *Spec, dek string, n int) *Spec {
 	pk := &Spec{Scheme: "pad", Route: "P", Variant: k.Variant, ID: k.ID, Key: k.Key, PadN: n, Inner: k,
@@ -647,9 +715,9 @@ func (s *Spec) Independent(iv, pt, ad []byte) (ct []byte, ok bool) {
 		return out, err == nil
 	}
 	if s.Scheme == "env" {
-		d := DEKs[s.DEK]
+		d, _ := DEKOf(s.DEK)
 		dk, kiv, div := iv[:d.KeyLen], iv[d.KeyLen:d.KeyLen+s.KEK.IVLen()], iv[d.KeyLen+s.KEK.IVLen():]
-		dekProto := append([]byte{d.Tag, byte(d.KeyLen)}, dk...)
+		dekProto := d.Ser(dk)
 		enc, ok1 := s.KEK.Independent(kiv, dekProto, nil)
 		payload, ok2 := s.DEKSpec(dk).Independent(div, pt, ad)
 		if !ok1 || !ok2 {
